@@ -1442,6 +1442,16 @@ fn out_of_range_latin1_inputs(include_invalid: bool) -> Vec<Vec<u8>> {
         v.push(vec![0x61, 0x62, 0x63, 0xFF]);
         v.push(vec![0xC0, 0x80]);
         v.push(vec![0xC1, 0xBF]);
+        // a lead 0xC2 / 0xC3 whose trail is NOT a continuation byte, at the very end and followed by valid text
+        // (the debug assertion `is_utf8_latin1` tests `(trail & 0xC0) == 0x80`: every class of the two top bits;
+        // model-mutation audit ME24)
+        for lead in [0xC2u8, 0xC3] {
+            for trail in [0x00u8, 0x3F, 0x40, 0x7F, 0xC0, 0xC2, 0xC3, 0xE9, 0xFF] {
+                v.push(vec![lead, trail]);
+                v.push(vec![0x61, lead, trail, 0x62]);
+                v.push(vec![lead, trail, 0xC3, 0xA4]);
+            }
+        }
         let mut long = vec![0x61u8; 40];
         long.push(0xBF);
         v.push(long);
@@ -1487,13 +1497,27 @@ fn extras(out: &mut Out, cx: &mut Ctx, al: &Alphas, rng: &mut Rng, f: F, thoroug
                 len += step;
             }
             // astral / surrogate items straddling the end of the destination
-            let tails: [&[u16]; 6] = [
+            let tails: [&[u16]; 17] = [
                 &[0xD83D, 0xDCA9],
                 &[0xD800],
                 &[0xDC00],
                 &[0xD800, 0x61],
                 &[0xD800, 0xD800, 0xDC00],
                 &[0x3042, 0xD83D, 0xDCA9],
+                // the ends of the surrogate ranges, paired and unpaired: with exactly three bytes free the `'tail`
+                // of convert_utf16_to_utf8_partial decides between "valid pair, will not fit" and U+FFFD
+                // (model-mutation audit ME13 / ME14 / ME16 / SS09)
+                &[0xDBFF, 0xDFFF],
+                &[0xD800, 0xDC00],
+                &[0xD800, 0xDFFF],
+                &[0xDBFF, 0xDC00],
+                &[0xDBFF],
+                &[0xDFFF],
+                &[0xDBFF, 0xE000],
+                &[0xDBFF, 0xDBFF],
+                &[0xD7FF, 0xDC00],
+                &[0xE4, 0xDBFF, 0xDFFF],
+                &[0xE4, 0x3042, 0xD800, 0xDC00],
             ];
             for pre in [0usize, 1, 13, 14, 15, 16, 17, 29, 30, 31, 32] {
                 for t in tails.iter() {
@@ -1501,7 +1525,7 @@ fn extras(out: &mut Out, cx: &mut Ctx, al: &Alphas, rng: &mut Rng, f: F, thoroug
                     v.extend_from_slice(t);
                     v.push(0x62);
                     let src = Src::W(v);
-                    for extra in 0..=5 {
+                    for extra in 0..=9 {
                         run_aligned(out, cx, f, &src, pre + extra, false, true);
                     }
                 }
